@@ -28,6 +28,51 @@ META = {
                      "SMT semantics of each operator (enc.rs) is the right generalisation of the values cross-validated on the boundary grid",
                      "z3 5.1.0 and z3 4.8.12 agree on every query (unsat needs both)"],
     ),
+    "C22": dict(
+        cmd="c22",
+        what="PruningPredicateBuilder::try_build (predicate -> min/max/null_count/row_count predicate) and LiteralGuarantee::analyze",
+        functions=["datafusion_pruning::PruningPredicateBuilder::try_build / PruningPredicate::{predicate_expr,prune}",
+                   "datafusion_physical_expr::utils::LiteralGuarantee::analyze",
+                   "ExprSimplifier::{coerce,simplify}, create_physical_expr (to obtain the physical predicate)",
+                   "PruningPredicate::prune on a one-container PruningStatistics + PhysicalExpr::evaluate (replay)"],
+        bounds="predicates: comparison / IN / IS NULL atoms over nullable columns a,b (Int32, UInt8; thorough adds Int64, UInt64, Int8) and booleans p,q, their negations, "
+               "AND/OR pairs, casts and `a+1`, `a-b` arithmetic, random boolean expressions of depth <= 3; the container is fully symbolic: min, max, null_count, row_count are "
+               "independent solver variables each of which may be unknown (NULL); the witness row is symbolic",
+        outside=["LIKE-prefix pruning / increment_utf8 (strings)", "bloom-filter membership (`contained()` returns None in the model and in the replay)",
+                 "file_pruner.rs partition-value plumbing", "containers are modelled by one witness row + statistics, not by explicit multi-row contents"],
+        assumptions=["statistics validity: min <= every non-NULL value <= max, null_count <= row_count, null_count < row_count if a non-NULL value exists, null_count >= 1 if a NULL exists, row_count >= 1",
+                     "prune() keeps a container unless the statistics predicate evaluates to FALSE (NULL and errors keep it)",
+                     "z3 5.1.0 and z3 4.8.12 agree on every query (unsat needs both)"],
+    ),
+    "C23": dict(
+        cmd="c23",
+        what="Interval::{add,sub,mul,div,gt,gt_eq,lt,lt_eq,equal,intersect,union,contains,cast_to}, satisfy_greater, propagate_arithmetic, propagate_comparison, ExprIntervalGraph::{evaluate_bounds,update_ranges}",
+        functions=["datafusion_expr_common::interval_arithmetic::Interval::{add,sub,mul,div,gt,gt_eq,lt,lt_eq,equal,intersect,union,contains,cast_to}",
+                   "datafusion_expr_common::interval_arithmetic::satisfy_greater",
+                   "datafusion_physical_expr::intervals::cp_solver::{propagate_arithmetic,propagate_comparison}",
+                   "datafusion_physical_expr::intervals::cp_solver::ExprIntervalGraph::{try_new,gather_node_indices,update_ranges,evaluate_bounds}"],
+        bounds="interval ENDPOINTS are enumerated from the type boundaries {MIN,MIN+1,-7,-2,-1,0,1,2,3,7,MAX-1,MAX,unbounded} of Int8/Int32/Int64/UInt8/UInt64 (seeded slice per tier); "
+               "the VALUES inside the intervals are unbounded solver variables (mathematical integers, exact arithmetic); propagation graphs have the shape `a (+|-) b <cmp> k`",
+        outside=["float endpoints and directed rounding (FFI fesetround), statistics.rs distributions, temporal / interval-typed endpoints", "NullableInterval (covered through C04 guarantees)",
+                 "expression graphs deeper than one arithmetic node under one comparison", "endpoints that are not boundary values"],
+        assumptions=["a result is only required to be covered when it is representable in the operand type (the property's own precondition)",
+                     "unbounded endpoint = the type's extreme value (unsigned lower bound 0), as Interval::new standardises it",
+                     "z3 5.1.0 and z3 4.8.12 agree on every query (unsat needs both)"],
+    ),
+    "C47": dict(
+        cmd="c47",
+        what="TypeCoercion analyzer rewrite (ExprSimplifier::coerce = TypeCoercionRewriter) on x <op> y for every ordered pair of types, followed by ExprSimplifier::simplify for literal operands",
+        functions=["datafusion_optimizer::analyzer::type_coercion::TypeCoercionRewriter (through ExprSimplifier::coerce)",
+                   "datafusion_expr_common::type_coercion::binary::comparison_coercion (reached from the rewriter)",
+                   "datafusion_optimizer::simplify_expressions::ExprSimplifier::simplify (unwrap_cast on coerced literal comparisons)",
+                   "create_physical_expr + PhysicalExpr::evaluate (replay and grid validation)"],
+        bounds="ordered pairs over {Int8,Int32,Int64,UInt8,UInt32,UInt64,Decimal128(10,2),(5,0),(20,0),Date32,Date64,Timestamp(s),Timestamp(ns)} (thorough adds Int16, UInt16, "
+               "Decimal128(18,6),(38,10), Timestamp(ms),(us)) x 8 comparison operators; operand values are unbounded solver variables of the full bit width; literal operands from the type boundaries",
+        outside=["float operands (2^53 neighbourhood), strings, dictionaries", "equi-joins on mixed-type keys (plan level)", "Date64 <-> Timestamp and Timestamp -> Date casts (not encoded: counted as unsupported)"],
+        assumptions=["'mathematically correct' = comparison of the exact integer / scaled-decimal values; for temporal types only the mirror law is checked",
+                     "one-row batches; SMT semantics of casts and comparisons cross-validated on the boundary grid",
+                     "z3 5.1.0 and z3 4.8.12 agree on every query (unsat needs both)"],
+    ),
 }
 
 
